@@ -97,7 +97,38 @@ pub mod seam {
     extern crate std;
     use std::{any::Any, boxed::Box};
 
-    pub use shuttle::sync::mpsc::channel as unbounded;
+    pub use shuttle::sync::mpsc::Receiver;
+
+    /// Order in which worker results were sent (worker index = order of `tx.clone()`), for the
+    /// simulator's reach measure. A plain std mutex: never held across a scheduling point.
+    static ARRIVALS: std::sync::Mutex<std::vec::Vec<usize>> = std::sync::Mutex::new(std::vec::Vec::new());
+    static CLONES: std::sync::atomic::AtomicUsize = std::sync::atomic::AtomicUsize::new(0);
+
+    pub fn take_arrivals() -> std::vec::Vec<usize> {
+        CLONES.store(0, std::sync::atomic::Ordering::SeqCst);
+        core::mem::take(&mut *ARRIVALS.lock().unwrap())
+    }
+
+    pub struct Sender<T>(shuttle::sync::mpsc::Sender<T>, usize);
+
+    impl<T> Clone for Sender<T> {
+        fn clone(&self) -> Self {
+            let index = CLONES.fetch_add(1, std::sync::atomic::Ordering::SeqCst) + 1;
+            Sender(self.0.clone(), index)
+        }
+    }
+
+    impl<T> Sender<T> {
+        pub fn send(&self, t: T) -> Result<(), shuttle::sync::mpsc::SendError<T>> {
+            ARRIVALS.lock().unwrap().push(self.1);
+            self.0.send(t)
+        }
+    }
+
+    pub fn unbounded<T>() -> (Sender<T>, Receiver<T>) {
+        let (tx, rx) = shuttle::sync::mpsc::channel();
+        (Sender(tx, 0), rx)
+    }
 
     pub struct Scope<'scope, 'env: 'scope>(&'scope shuttle::thread::Scope<'scope, 'env>);
 
